@@ -151,6 +151,12 @@ func c13(ctx *Ctx) (*Outcome, error) {
 			mid := &sg.Schema{Types: []string{"object"}, Props: []sg.Prop{{Name: "8", S: leaf}, {Name: "2.5", S: &sg.Schema{Types: []string{"array"}, Items: &sg.Schema{Types: []string{"object"}, Props: []sg.Prop{{Name: "6", S: &sg.Schema{Types: []string{"boolean"}}}}}}}}}
 			root.Props = append(root.Props, sg.Prop{Name: "7", S: mid})
 		}
+		if i%2 == 0 {
+			// strings that need escaping in both notations (C0 controls, DEL, a non-BMP tag character, line and
+			// paragraph separators): both parsers must hand the generator the same text
+			ctl := &sg.Schema{Types: []string{"string"}, Desc: "ctl \u0001\u0008\u000b\u001f\u007f \U000e0001 \u2028 end \"quoted\" \\ back\ttab", Pattern: "^[^\u0001-\u0008\u007f]*$", Default: "\u001f\u007f\U000e0001", HasDefault: true}
+			root.Props = append(root.Props, sg.Prop{Name: "ctl", S: ctl}, sg.Prop{Name: "ctlEnum", S: &sg.Schema{Types: []string{"string"}, HasEnum: true, Enum: []any{"a\u0001b", "c\u007fd", "e\U000e0001f"}}})
+		}
 		// an untyped subschema in every position the statement names, and a dependency keyword
 		root.Props = append(root.Props, sg.Prop{Name: "anyprop", S: &sg.Schema{}}, sg.Prop{Name: "anyitems", S: &sg.Schema{Types: []string{"array"}, Items: &sg.Schema{}}},
 			sg.Prop{Name: "anyadd", S: &sg.Schema{Types: []string{"object"}, Props: []sg.Prop{{Name: "k", S: &sg.Schema{Types: []string{"string"}}}}, AddProps: &sg.Schema{}}})
